@@ -129,7 +129,9 @@ def run_one(tapes, tier, scenario=None):
     h = [("Host", sc["host"])]
     for kind, info in sc["headers"].items():
         h.append((proxygen.WIRE_NAME[kind], info["value"].encode("latin-1", "replace")))
-    sim.add_client([("send", build_request("GET", "/p", "1.1", h))], cid=0, addr=(PEER, 40123))
+    # a second request travels behind the first: after a 400 the server must close, not serve on
+    sim.add_client([("send", build_request("GET", "/p", "1.1", h) + build_request("GET", "/after", "1.1", [("Host", sc["host"])]))],
+                   cid=0, addr=(PEER, 40123))
     sim.run()
     s = sim.conns.get(0)
     wire = bytes(s.wire)
@@ -148,6 +150,12 @@ def run_one(tapes, tier, scenario=None):
             status, lp[0][1] if lp else "", lp[0][2] if lp else "", desc, cfg))
     elif status not in (200, 400):
         res.v("status", str(status), "unexpected status %r for headers %r" % (status, desc))
+    if status == 400:
+        # the refusal is a server-generated error response: exactly one, then the connection is closed
+        n_resp = wire.count(b"HTTP/1.1 ") + wire.count(b"HTTP/1.0 ")
+        if n_resp != 1 or any(c["path"] == "/after" for c in app.calls) or not s.closed:
+            res.v("served_after_400", cfg, "after the 400 for headers %r the connection was not closed: %d response(s) on the wire, application calls %r, closed=%s" % (
+                desc, n_resp, [c["path"] for c in app.calls], s.closed))
     else:
         # ---- which outcome does the property fix?
         must_400 = []
